@@ -71,7 +71,8 @@ def is_string_form(rt, tup):
         if x[0] == "phi":
             return form(x[2]) and form(x[3]) and all(un(y) for y in P.subterms(x[1]) if y[0] == "call" and y[1] == "urllib.parse.urlunsplit")
         return False
-    return form(P.strip_inl(rt))  # a helper that only wraps the cut stands for its body
+    tup = P.strip_inl(tup)
+    return form(P.strip_inl(rt))  # a helper that only wraps the cut stands for its body (markers removed on both sides)
 
 
 def body_function(repo, ref):
